@@ -326,8 +326,71 @@ class Runtime:
             raise MergeAbort(self.current_site(), f'guarded store into {type(a).__name__}')
         if isinstance(k, (SInt, SNum)):
             raise MergeAbort(self.current_site(), 'guarded store at symbolic index')
+        if self._absorbs(a[k], v, g):
+            a[k] = v
+            STATS['absorbed'] += 1
+            return
         a[k] = self.merge(self._conj(g).term, v, a[k])
         STATS['ite_stores'] += 1
+
+    def store_slice(self, a, lo, hi, vals):
+        g = self.active()
+        if not g:
+            a[lo:hi] = vals
+            return
+        if not isinstance(a, (SBA, list)):
+            raise MergeAbort(self.current_site(), f'guarded slice store into {type(a).__name__}')
+        if isinstance(lo, (SInt, SNum)) or isinstance(hi, (SInt, SNum)):
+            raise MergeAbort(self.current_site(), 'guarded slice store at symbolic bounds')
+        idx = range(len(a))[lo:hi]
+        vals = list(vals)
+        if len(vals) != len(idx):
+            raise MergeAbort(self.current_site(), 'guarded slice store that resizes')
+        gt = self._conj(g).term
+        for i, v in zip(idx, vals):
+            if isinstance(v, Lazy):
+                v = v.force()
+            if isinstance(v, Lookup):
+                v = v.materialise()
+            if self._absorbs(a[i], v, g):
+                a[i] = v
+                STATS['absorbed'] += 1
+                continue
+            a[i] = self.merge(gt, v, a[i])
+            STATS['ite_stores'] += 1
+
+    def _absorbs(self, old, new, g):
+        """new == old ^ d with d == 0 whenever the guard is false: the guarded store `x = new` may be done unguarded
+        (the same absorption as for `x ^= d`, for code that writes `x = x ^ d`)"""
+        if len(g) != 1 or g[0].nonzero_of is None or not isinstance(new, SInt) or not isinstance(old, (SInt, int)) or isinstance(old, bool):
+            return False
+        ob = old.bits if isinstance(old, SInt) else [(old >> i) & 1 for i in range(max(old.bit_length(), 1))]
+        nb = new.bits
+        if new.wd is not None or (isinstance(old, SInt) and old.wd is not None):
+            return False
+        d = []
+        for i in range(max(len(ob), len(nb))):
+            o = ob[i] if i < len(ob) else 0
+            n = nb[i] if i < len(nb) else 0
+            if isc(o) and isc(n):
+                d.append(o ^ n)
+            elif isc(o) and o == 0:
+                d.append(n)
+            elif isc(n):
+                return False
+            elif o is n or (not isc(o) and o.eq(n)):
+                d.append(0)
+            elif not isc(o) and n.decl().kind() == z3.Z3_OP_BXOR and n.num_args() == 2:
+                x0, x1 = n.arg(0), n.arg(1)
+                if x0.eq(o):
+                    d.append(x1)
+                elif x1.eq(o):
+                    d.append(x0)
+                else:
+                    return False
+            else:
+                return False
+        return self.zero_off_guard(SInt(d), g)
 
     _OPS = {'^': lambda x, y: x ^ y, '+': lambda x, y: x + y, '|': lambda x, y: x | y, '-': lambda x, y: x - y,
             '&': lambda x, y: x & y}
